@@ -46,6 +46,7 @@ class FnContract:
     wf_post: bool = True
     spec_modules: List[str] = field(default_factory=list)     # names of axiom groups needed
     prop: str = ""
+    also: List[str] = field(default_factory=list)   # other properties whose check re-verifies this contract
     native: Optional[dict] = None  # replay scaffolding: {"setup": "<python source>"}
     verify: bool = True            # False: contract is assumed (trusted), listed as such
     doc: str = ""
